@@ -33,6 +33,10 @@ def run(ctx):
     traces = P.record(jobs)
     ctx.cov["recorded_random"] += len(traces)
     P.validate(ctx, traces, "random")
+    # sessions: a re-used detector starts every run from the buckets the previous run left, and the
+    # schedule / readout mode may change between the runs
+    traces = P.sessions(ctx, [], ctx.pick(60, 1200), kinds=("obs", "set", "add"))
+    P.validate(ctx, traces, "sessions")
     ctx.assumptions += ["times are dyadic rationals (ticks of 1/1024 s) so the float clock arithmetic of the code is exact",
                         "buckets are observed by probe models at entry; prior contents are loaded through the public setters"]
 
